@@ -446,6 +446,10 @@ func c19(mode, in, out string) error {
 		return runCases(in, out, c19ReplayCase)
 	case "record":
 		return runCases(in, out, c19RecordCase)
+	case "history":
+		return runCases(in, out, c19HistoryCase)
+	case "histrecord":
+		return runCases(in, out, c19HistRecordCase)
 	}
 	return fmt.Errorf("c19: unknown mode %s", mode)
 }
